@@ -126,7 +126,8 @@ impl AstLowering {
             .map(|p| {
                 let base_ty = self.lower_type(&p.node.ty.node);
                 // For mutable parameters, wrap in RefMut to track that it's a &mut reference
-                let ty = if p.node.is_mut {
+                // (int, float and bool parameters are emitted by value: `mut n: i64`)
+                let ty = if p.node.is_mut && !matches!(base_ty, IrType::Int | IrType::Float | IrType::Bool) {
                     IrType::RefMut(Box::new(base_ty.clone()))
                 } else {
                     base_ty.clone()
@@ -595,8 +596,8 @@ impl AstLowering {
             .iter()
             .map(|p| {
                 let base_ty = self.lower_type(&p.node.ty.node);
-                // For mutable parameters, wrap in RefMut
-                let ty = if p.node.is_mut {
+                // For mutable parameters, wrap in RefMut (int, float and bool parameters are emitted by value)
+                let ty = if p.node.is_mut && !matches!(base_ty, IrType::Int | IrType::Float | IrType::Bool) {
                     IrType::RefMut(Box::new(base_ty.clone()))
                 } else {
                     base_ty.clone()
